@@ -22,8 +22,11 @@ PARTIAL = ["C04_full (no data-consistency error in any honest history, any sched
            "Definition in model/KeepSpec.v: it is DECIDED by the state-level theorems (C04_call_compat, C04_canon_compat, "
            "C04_merger_compat: states that approximate one full state always merge, for call, canon and ap states, all inputs) "
            "plus exploration (bounded-exhaustive schedules for small scripts, random schedules for larger ones, lock-step with "
-           "the executor model); the approximation invariant that would lift the state-level theorems to histories (DESIGN "
-           "appendix B) is not proved",
+           "the executor model); the approximation invariant that lifts the state-level theorems to histories (DESIGN "
+           "appendix B) is PROVED ONLY for straight-line scripts on several peers (call with literal target/service/function and literal or plain-scalar arguments, ap of a literal or scalar, seq, xor, match, mismatch, fail, null, never; model/NetLin.v): C04_linear_histories -- in every honest history of SeqLocal's "
+           "network (start, every delivery order, duplication, re-delivery, delayed answers) every run returns new data with a "
+           "code outside the generated consistency-error set, for run1 and run2; par, folds, new, lenses, streams, canon and "
+           "variable targets are NOT covered by a history-level theorem",
            "par/fold state machines, fold lore resolution and stream generation bookkeeping on honest data are covered by the "
            "exploration only (the handler-level theorem of C09 covers the call/par fragment)",
            "signature and CID-store verification errors (codes of PreparationError) are only observed on the real code: the "
